@@ -264,7 +264,9 @@ MANIFEST = {
              "hashes that look at part of a term are refuted by TLC); every case is executed on the real encoders and on "
              "==, hash(), set and dict operations of the eight hashable classes -- each object of a pair brought about by a provenance "
              "(constructor; hashed donor then model_copy(update) / attribute assignment; hashed then deep copy / dump-validate "
-             "round trip), so a hash remembered across a derivation is refuted (control history/MC_Encoding_hash_memo) -- plus random vocabularies of <= 8 of 12 tags "
+             "round trip; constructor with every optional field passed explicitly), and vocabulary / query tags of the encoders "
+             "written differently, so a hash that remembers a derivation or sees which fields were set is refuted (controls "
+             "history/MC_Encoding_hash_memo, _hash_fields_set) -- plus random vocabularies of <= 8 of 12 tags "
              "with lists of <= 8, and TLC validates the observations clause by clause."),
     "note": ("trusted: TLC, binder checks/c19.py (encoder; objects rebuilt for every use so identity cannot help); the hash "
              "clause is the contract, not the projection: different but sound hashes pass (mutants/C19/must_pass)"),
